@@ -8,6 +8,7 @@ package props
 import (
 	"bytes"
 	"fmt"
+	"runtime"
 	"strings"
 	"testing"
 
@@ -32,7 +33,14 @@ type c17Case struct {
 	Pool     []gen.Rec `json:"pool"` // the input is the pool cycled K times
 	K        int       `json:"k"`
 	Sep      int       `json:"sep"` // 0 none, 1 insignificant separator (blank line / whitespace) between records
+	// Heap selects the live-heap arm: the pool is cycled 5*K times and the live heap (after two forced collections) is
+	// sampled when K and when 5*K records have been read; "what a Transform retains" must not have grown by more than
+	// c17HeapSlack in between (a leak of a few hundred bytes per record is 10x above that, the unchanged code's noise
+	// 30x below).
+	Heap bool `json:"heap,omitempty"`
 }
+
+const c17HeapSlack = 1 << 20
 
 func genC17(t *rapid.T) c17Case {
 	c := c17Case{}
@@ -60,6 +68,13 @@ func genC17(t *rapid.T) c17Case {
 	ks = append(ks, 2000, 2000, 2000, 2000, 20000)
 	c.K = ks[rapid.IntRange(0, len(ks)-1).Draw(t, "kIdx")]
 	c.Sep = rapid.IntRange(0, 1).Draw(t, "sep")
+	if rapid.IntRange(0, 9).Draw(t, "heapArm") == 0 {
+		c.Heap = true
+		c.K = rapid.SampledFrom([]int{1000, 1500, 2500}).Draw(t, "heapK")
+		if c.Shape.Format == "xml" {
+			c.Sep = 0 // whitespace between xml records is the open finding C17-F1, measured by the tree-size arm
+		}
+	}
 	return c
 }
 
@@ -268,11 +283,72 @@ func checkC17Nested(c c17Case) obs.Result {
 	return obs.OK(delivered >= 50 && rejected, classes...)
 }
 
+// c17LiveHeap: bytes of live heap objects after two forced collections (the second one empties sync.Pool victims).
+func c17LiveHeap() uint64 {
+	runtime.GC()
+	runtime.GC()
+	var ms runtime.MemStats
+	runtime.ReadMemStats(&ms)
+	return ms.HeapAlloc
+}
+
+func checkC17Heap(c c17Case, classes []string) obs.Result {
+	classes = append(classes, "arm=live-heap")
+	sch, err := run.NewSchema(c.Shape.Schema())
+	if err != nil {
+		return obs.Violationf("generated schema rejected: %v", err)
+	}
+	in := c.render(5*c.K, c.Sep)
+	tr, err := sch.NewTransform("input", bytes.NewReader(in), &transformctx.Ctx{})
+	if err != nil {
+		return obs.Result{Excluded: "run failed: " + err.Error()}
+	}
+	var h1, h2 uint64
+	reads, ok := 0, 0
+	for ; reads < 2*len(in)+64; reads++ {
+		if reads == c.K {
+			h1 = c17LiveHeap()
+		}
+		_, rerr := tr.Read()
+		if rerr != nil && !errs.IsErrTransformFailed(rerr) {
+			break
+		}
+		if rerr == nil {
+			ok++
+		}
+	}
+	// second sample: after the terminal result, the Transform still alive
+	if h1 != 0 && reads >= 2*c.K {
+		h2 = c17LiveHeap()
+	}
+	runtime.KeepAlive(tr)
+	runtime.KeepAlive(in)
+	if h1 == 0 || h2 == 0 {
+		// fewer than 2K results (filtered candidates are no results): measured too little
+		return obs.OK(false, append(classes, "heap-not-sampled")...)
+	}
+	obs.Count("heap_arm_reads", reads)
+	if h2 > h1 {
+		obs.Count("heap_arm_growth_bytes", int(h2-h1))
+		if h2-h1 > 64<<10 {
+			obs.Count("heap_arm_growth_over_64KiB", 1)
+		}
+	}
+	if h2 > h1 && h2-h1 > c17HeapSlack {
+		return obs.Violationf("live heap held while streaming grew from %d bytes after %d Reads to %d bytes after %d Reads (+%d bytes, %d per Read; slack %d): the Transform retains something per delivered record\nshape %+v pool=%+v",
+			h1, c.K, h2, reads, h2-h1, (h2-h1)/uint64(reads-c.K), c17HeapSlack, c.Shape, c.Pool)
+	}
+	return obs.OK(ok >= 1000, classes...)
+}
+
 func checkC17(c c17Case) obs.Result {
 	if len(c.Nest) > 0 {
 		return checkC17Nested(c)
 	}
 	classes := []string{"format=" + c.Shape.Format, fmt.Sprintf("sep=%d", c.Sep)}
+	if c.Heap {
+		return checkC17Heap(c, classes)
+	}
 	if c.K >= 2000 {
 		classes = append(classes, "k>=2000")
 	}
